@@ -352,7 +352,7 @@ def build_cases(ctx, tables):
     for r in malformed_cases():
         cases.append(dict(id="bad:" + r["name"], kind="recipe", recipe=r))
     cases.extend(shipped_cases(tables))
-    per_target = ctx.scale(1100, 12000)
+    per_target = ctx.scale(1100, 4500)
     for t in c05_tables.TARGETS:
         consts = [k for k, _ in tables[t]["consts"]]
         for r in c05_gen.generate(rng, t, declared(tables, t), consts, per_target, prefix=f"g_{t}_"):
@@ -370,7 +370,7 @@ def build_cases(ctx, tables):
             b["stream"] = "reuse"
             b["refs"] = {}  # explicit references would mutate props of nodes shared with the function printed before
             cases.append(dict(id=b["name"], kind="recipe", recipe=b, prelude=a))
-    cases.extend(history_cases(rng, ctx.scale(300, 3000)))
+    cases.extend(history_cases(rng, ctx.scale(300, 2000)))
     return cases
 
 
@@ -414,7 +414,7 @@ def run(ctx):
             ctx.notes[f"exempt_rows_now_ok:{t}"] = stale
 
     cases = directed + build_cases(ctx, tables)
-    cfg = dict(seed=ctx.seed, ninputs=ctx.scale(36, 120), debugs=[0, 1])
+    cfg = dict(seed=ctx.seed, ninputs=ctx.scale(36, 64), debugs=[0, 1])
     results = run_workers(cases, cfg)
     ctx.notes["worker_wall_s"] = round(time.time() - t0, 1)
     by_case = {c["id"]: c for c in cases}
